@@ -126,6 +126,15 @@ def evaluate(ctx, case):
         return {'crash': crash_signature(e.stderr), 'stderr': e.stderr[-4000:]}
 
 
+try:
+    # shrinking a failure whose every attempt restarts a crashed driver is slow: bound it (Hypothesis' default is 300 s); the structural
+    # reducers of the properties and the saved replay file do not depend on a fully shrunk case
+    import hypothesis.internal.conjecture.engine as _hce
+    _hce.MAX_SHRINKING_SECONDS = float(os.environ.get('VERIF_MAX_SHRINK_S', '45'))
+except Exception:
+    pass
+
+
 def hyp_search(ctx, strategy, examples, check=None):
     """returns None or (case, detail, signature) of the shrunk failure"""
     state = {'last': None}
